@@ -282,6 +282,32 @@ def report_body_dict(b):
     return d
 
 
+def _typed(hexed):
+    """typed twin of a field dictionary produced by report_body_dict / quote_dict: hex -> bytes"""
+    return {k: (_typed(v) if isinstance(v, dict) else bytes.fromhex(v) if isinstance(v, str) else v)
+            for k, v in hexed.items()}
+
+
+def quote_fields(b):
+    """Fields of a sgx_quote_t as the struct defines them: integers unsigned little-endian,
+    byte arrays as bytes, nested structs as dictionaries."""
+    return _typed(quote_dict(b))
+
+
+# integer fields of sgx_quote_t: name -> (offset in the quote, width in bytes)
+QUOTE_INT_FIELDS = {
+    "version": (0, 2), "sign_type": (2, 2), "tee_type": (4, 4), "qe_svn": (8, 2), "pce_svn": (10, 2),
+    "report_body.miscselect": (48 + 16, 4), "report_body.attributes.flags": (48 + 48, 8),
+    "report_body.attributes.xfrm": (48 + 56, 8), "report_body.isvprodid": (48 + 256, 2),
+    "report_body.isvsvn": (48 + 258, 2), "report_body.configsvn": (48 + 260, 2),
+}
+
+
+def v2_root_element(pem):
+    b = "".join(l for l in pem.strip().split("\n") if not l.startswith("-----"))
+    return V2Element({"name": V2_ROOT, "type": "x509_pem", "message": b, "signed_by": V2_ROOT})
+
+
 def quote_dict(b):
     v = _QH.unpack_from(b, 0)
     d = dict(zip(("version", "sign_type", "tee_type", "qe_svn", "pce_svn", "uuid", "user_data"),
